@@ -66,10 +66,11 @@ def unit_item(args, prefix=(), max_depth=None):
         key = json.dumps(tr, sort_keys=True)
         cx = core.ctx()
         seen.setdefault(key, tuple(d[0] for d in cx.decisions))
-        return {'cex': [], 'queries': 1,
+        # two different transcripts settle the item: stop exploring further orders (the pair is replayed literally)
+        return {'cex': [{'differs': True}] if len(seen) > 1 else [], 'queries': 1,
                 'sample': {'unit': f'corpus {name}', 'order_choices_on_path': len(cx.decisions),
                            'transcript_head': key[:160]}}
-    res = common.run_paths(body, prefix, max_depth)
+    res = common.run_paths(body, prefix, max_depth, stop_after_cex=1, deadline_s=600)
     res['transcripts'] = {k: list(v) for k, v in seen.items()}
     res['encoded'] = {f'corpus item {name}': 'transcript over set orders'}
     res['bounds'] = (f'item {name}: every iteration order of every set built by repository code (all k! for k<=3, '
